@@ -9,26 +9,26 @@ namespace Spowtd
     and to the residual sums, hence to the set of minimisers. -/
 theorem objective_perm (m m' : Mapping Rat) (x : Nat → Rat)
     (h : List.Forall₂ (fun hl hl' => hl.1 = hl'.1 ∧ hl.2.Perm hl'.2) m m') :
-    objective m x = objective m' x ∧ ∀ s, residualSum m x s = residualSum m' x s := by
-  sorry
+    objective m x = objective m' x ∧ ∀ s, residualSum m x s = residualSum m' x s :=
+  LS.perm_within m m' x h
 
 theorem objective_perm_levels (m m' : Mapping Rat) (x : Nat → Rat) (h : m.Perm m') :
-    objective m x = objective m' x ∧ ∀ s, residualSum m x s = residualSum m' x s := by
-  sorry
+    objective m x = objective m' x ∧ ∀ s, residualSum m x s = residualSum m' x s :=
+  LS.perm_levels m m' x h
 
 /-- Shifting one interval's own axis by a constant shifts its offset by the opposite constant and
     changes nothing else: residual sums, objective and aligned values `x s + t` are unchanged. -/
 theorem axis_shift_equivariant (m : Mapping Rat) (c x : Nat → Rat) :
     (∀ s, residualSum (shiftAxes m c) (fun s => x s - c s) s = residualSum m x s) ∧
-    objective (shiftAxes m c) (fun s => x s - c s) = objective m x := by
-  sorry
+    objective (shiftAxes m c) (fun s => x s - c s) = objective m x :=
+  LS.axis_shift m c x
 
 /-- Which interval serves as the internal zero does not matter: adding a common constant to all
     offsets is undone by the re-origin step. -/
 theorem reorigin_ignores_internal_zero (a : Aligned Rat) (κ : Rat) (ref : Option Int)
     (hcov : ∀ hl ∈ a.mapping, hl.2 ≠ [] ∧ ∀ st ∈ hl.2, ∃ v, (st.1, v) ∈ a.offsets) :
-    reorigin { a with offsets := a.offsets.map (fun p => (p.1, p.2 + κ)) } ref = reorigin a ref := by
-  sorry
+    reorigin { a with offsets := a.offsets.map (fun p => (p.1, p.2 + κ)) } ref = reorigin a ref :=
+  LS.reorigin_shift a κ ref hcov
 
 /-- Hence, for a connected proper mapping, the master curve after re-origin is the same for every
     stationary offset vector. -/
@@ -37,20 +37,30 @@ theorem master_curve_unique (m : Mapping Rat) (hm : ProperMapping m) (hc : Conne
     (x y : Nat → Rat) (hx : Stationary m x) (hy : Stationary m y) (ref : Option Int) :
     (reorigin { offsets := ids.map (fun s => (s, x s)), mapping := m } ref).map masterCurve =
     (reorigin { offsets := ids.map (fun s => (s, y s)), mapping := m } ref).map masterCurve := by
-  sorry
+  have _ := hnd
+  rw [LS.master_unique m hm hc ids hids x y hx hy ref]
 
 /-- The groups returned by the merge loop partition the levels, and two levels sharing a series
     are in the same group. -/
 theorem components_partition (m : Mapping Rat) (hnd : (m.map (·.1)).Nodup) :
     ((components m).flatMap (·.1)).Perm (m.map (·.1)) ∧
     ∀ hl ∈ m, ∀ hl' ∈ m, ¬ disjointB (seriesAt hl.2) (seriesAt hl'.2) = true →
-      ∃ g ∈ components m, hl.1 ∈ g.1 ∧ hl'.1 ∈ g.1 := by
-  sorry
+      ∃ g ∈ components m, hl.1 ∈ g.1 ∧ hl'.1 ∈ g.1 :=
+  LS.components_part m hnd
 
 /-- Series of different groups share no level: an interval outside the kept group is linked to it
     neither directly nor through a chain. -/
 theorem components_separated (m : Mapping Rat) (hnd : (m.map (·.1)).Nodup) :
     ∀ g ∈ components m, ∀ g' ∈ components m, g ≠ g' → disjointB g.2 g'.2 = true := by
-  sorry
+  have _ := hnd
+  exact LS.components_sep m
+
+/-! Non-vacuity: a disconnected mapping splits into two groups; a chained one stays in one. -/
+
+example : components ([(0, [(0, 0), (1, 1)]), (1, [(2, 3), (3, 2)])] : Mapping Rat)
+    = [([0], [0, 1]), ([1], [2, 3])] := by decide +kernel
+
+example : components ([(0, [(0, 0), (1, 2)]), (1, [(1, 3), (2, 2)]), (2, [(1, 6), (2, 5)])] : Mapping Rat)
+    = [([2, 1, 0], [1, 2, 0])] := by decide +kernel
 
 end Spowtd
